@@ -30,8 +30,12 @@ struct EntropyScript {
     /// bytes handed out, consumed front to back; when exhausted a counter pattern
     bytes: Vec<u8>,
     pos: usize,
-    /// fail the k-th call (1-based) with -1 / EIO; 0 = never
+    /// fail the k-th call (1-based) with -1; 0 = never
     fail_at: usize,
+    /// fail every call from the k-th on; 0 = never
+    fail_from: usize,
+    /// errno reported by an injected failure
+    errno: i32,
     calls: Vec<(usize, i32, String)>,
     active: bool,
 }
@@ -40,6 +44,8 @@ static ENTROPY: Mutex<EntropyScript> = Mutex::new(EntropyScript {
     bytes: Vec::new(),
     pos: 0,
     fail_at: 0,
+    fail_from: 0,
+    errno: 5,
     calls: Vec::new(),
     active: false,
 });
@@ -73,9 +79,9 @@ pub unsafe extern "C" fn getentropy(buffer: *mut u8, len: usize) -> i32 {
         return 0;
     }
     let k = script.calls.len() + 1;
-    if len > 256 || (script.fail_at != 0 && k == script.fail_at) {
+    if len > 256 || (script.fail_at != 0 && k == script.fail_at) || (script.fail_from != 0 && k >= script.fail_from) {
         script.calls.push((len, -1, String::new()));
-        *__errno_location() = 5; // EIO
+        *__errno_location() = if len > 256 { 5 } else { script.errno };
         return -1;
     }
     let mut out = Vec::with_capacity(len);
@@ -162,6 +168,8 @@ fn run(req: &Value) -> Result<Value, String> {
                 };
                 s.pos = 0;
                 s.fail_at = req.get("fail_at").and_then(Value::as_u64).unwrap_or(0) as usize;
+                s.fail_from = req.get("fail_from").and_then(Value::as_u64).unwrap_or(0) as usize;
+                s.errno = req.get("errno").and_then(Value::as_u64).unwrap_or(5) as i32;
                 s.calls.clear();
                 s.active = !req.get("passthrough").and_then(Value::as_bool).unwrap_or(false);
             }
@@ -259,7 +267,8 @@ fn run(req: &Value) -> Result<Value, String> {
                     Ok(s) => sig_json(&s),
                     Err(e) => json!({"err": e.to_string()}),
                 };
-                json!({"ok": {"sig": sig_json(&first), "again": second}})
+                json!({"ok": {"sig": sig_json(&first), "again": second, "address": key.address().to_string(),
+                               "pub65": hex::encode(key.public().encode_uncompressed())}})
             }
             Err(e) => err("key", format!("{e:#}")),
         },
@@ -343,7 +352,12 @@ fn for_index(index: usize) -> Value {
             self.map_err(|e| e.to_string())
         }
     }
-    match hdk::Path::for_index(index).into_path_result() {
+    // The parameter may be `usize` or a narrower integer type; an index that does not fit is an ordinary error.
+    let arg = match index.try_into() {
+        Ok(arg) => arg,
+        Err(_) => return err("path", "account index does not fit the parameter type of Path::for_index"),
+    };
+    match hdk::Path::for_index(arg).into_path_result() {
         Ok(p) => json!({"ok": {"printed": p.to_string()}}),
         Err(e) => err("path", e),
     }
